@@ -6,7 +6,7 @@ from props import c03
 
 RULE = ("curated balanced reactions shipped with the repository (quick: 300 sampled; thorough: all), their reversals, doublings "
         "(every molecule twice) and unions of two reactions, hand-written ionic / heavy-element / isotope cases, atom-mapped and "
-        "unmapped spellings; mixed batches (balanced rows shuffled among rows the rule-based stage rewrites and unparsable rows that are filtered out; rows matched to inputs through input_reaction); plus, for the converse, all rows of the corpus and generated runs.  Independent RDKit-only balance "
+        "unmapped spellings; mixed batches (balanced rows shuffled among rows the rule-based stage rewrites and unparsable rows that are filtered out; rows matched to inputs through input_reaction; a valid balanced input must keep its row); result rows of an earlier run fed in again as dict rows; plus, for the converse, all rows of the corpus and generated runs.  Independent RDKit-only balance "
         "oracle decides what must be input-balanced.  Non-trivial: a balanced input with >= 3 molecules or a charge or a variant "
         "(reversed/doubled/union); distinct = distinct input reaction.")
 ASSUMPTIONS = c03.ASSUMPTIONS
@@ -18,7 +18,10 @@ HAND = ["[Na+].[Cl-]>>[Na+].[Cl-]", "[U]>>[U]", "F[U](F)(F)(F)(F)F>>F[U](F)(F)(F
         "[Cl-].[Cl-]>>ClCl", "ClCl>>[Cl-].[Cl-]", "[O-]C(=O)C([O-])=O>>O=C=O.O=C=O", "O=C=O.O=C=O>>[O-]C(=O)C([O-])=O", "[Fe+3]>>[Fe+2]", "[Fe+2]>>[Fe+3]",
         "[O-]c1ccc([O-])cc1>>O=C1C=CC(=O)C=C1", "[Cu+]>>[Cu]", "[Na]>>[Na+]", "[S-2]>>[S]",
         # a molecule written with a ring-closure bond across the dot (known finding cross-dot-ring-closure)
-        "C1.C1O>>CCO", "CC(=O)O1.C1C>>CCOC(C)=O"]
+        "C1.C1O>>CCO", "CC(=O)O1.C1C>>CCOC(C)=O",
+        # neutral bracket atoms of two-letter elements whose second letter is itself an element symbol (Os, Co, Sn, In, Cs, Sc, No)
+        "O=[Os](=O)(=O)=O.C=C>>C=C.O=[Os](=O)(=O)=O", "C[Sn](C)(C)C>>C[Sn](C)(C)C", "Cl[Co]Cl>>Cl[Co]Cl", "Cl[In](Cl)Cl>>Cl[In](Cl)Cl", "F[Sc](F)F>>F[Sc](F)F",
+        "C[Sn](C)(C)c1ccccc1.Brc1ccccc1>>c1ccc(-c2ccccc2)cc1.C[Sn](C)(C)Br"]
 
 
 def oracle(ctx, b, expect_variant=False, by_input=False):
@@ -28,8 +31,15 @@ def oracle(ctx, b, expect_variant=False, by_input=False):
         pairs = [(r["input_reaction"], r) for r in b["rows"] if b["inputs"].count(r["input_reaction"]) == 1]
         ctx.count("inputs", "rows_matched_by_input_reaction", len(pairs))
     elif len(b["rows"]) != len(b["inputs"]):
+        # rows were filtered out (C05's mechanism for unparsable input).  A VALID balanced input must still have its row.
         ctx.count("inputs", "batches_with_lost_rows(C05)")
-        return
+        have = {r["input_reaction"] for r in b["rows"]}
+        for inp in b["inputs"]:
+            if inp.count(">>") == 1 and ":" not in inp and pipe.balanced(inp) is True and pipe.closed_shell(inp) and inp not in have:
+                ctx.evaluations += 1
+                ctx.fail("balanced-input-has-no-row", {"inputs": list(b["inputs"]), "missing": inp, "by_input": True}, {"rows_returned": len(b["rows"])})
+        pairs = [(r["input_reaction"], r) for r in b["rows"] if b["inputs"].count(r["input_reaction"]) == 1]
+        by_input = True
     else:
         pairs = list(zip(b["inputs"], b["rows"]))
     for inp, r in pairs:
@@ -112,6 +122,22 @@ def run(ctx):
     ctx.count("inputs", "mixed_batches", len(ms))
     for b in ms:
         oracle(ctx, b, by_input=True)
+    # rows of an earlier run fed in again: their reaction is balanced now, whatever they say about themselves (solved, solved_by, issue)
+    from synrbl import Balancer
+    firsts = ["CC(=O)Cl.CN>>CC(=O)NC", "CC(=O)C>>CC(O)C", "CCBr.CN>>CCNC", "CC(=O)OC.O>>CC(=O)O", "CC(=O)O.CCO>>CC(=O)OCC.O"]
+    res1 = Balancer(n_jobs=1).rebalance(list(firsts), output_dict=True)
+    fed = [dict(r) for r in res1 if r.get("solved") and pipe.balanced(r["reaction"]) is True]
+    for what, src in (("fed-back rows alone", fed), ("fed-back rows next to fresh rows", fed[:2] + [{"reaction": "CCO>>CCO"}, {"reaction": "[Na+].[Cl-]>>[Na+].[Cl-]"}] + fed[2:])):
+        try:
+            rows = Balancer(n_jobs=1).rebalance([dict(d) for d in src], output_dict=True)
+        except Exception as e:
+            ctx.count("inputs", "fed_back_run_raised"); continue
+        ctx.count("inputs", "fed_back_runs")
+        ins = [d["reaction"] for d in src]
+        if len(rows) == len(ins):
+            oracle(ctx, {"inputs": ins, "rows": [{"input_reaction": r.get("input_reaction"), "reaction": r.get("reaction"), "solved": r.get("solved") is True or r.get("solved") == 1,
+                                                    "solved_by": r.get("solved_by") if isinstance(r.get("solved_by"), str) else None} for r in rows], "tables": {}},
+                   expect_variant=True)
     bs = pipe.corpus_run(ctx)
     gs = c03.gen_run(ctx)
     for b in bs + gs:
